@@ -943,8 +943,8 @@ def _transform_space(
             # xyz = hkl * (A^-1)^T
             v_out = np.matmul(v_in, lattice.recbase.T)
         else:
-            # uvw = hkl * g_ij^-1
-            v_out = np.matmul(v_in, lattice.reciprocal().metrics)
+            # uvw = hkl * g_ij^-1 = hkl * (A^-1)^T * A^-1
+            v_out = np.matmul(v_in, np.matmul(lattice.recbase.T, lattice.recbase))
     else:
         if space_out == "d":
             # uvw = xyz * A^-1
